@@ -11,6 +11,7 @@ import PPV.Model.NewtonRun
 import PPV.Model.ConnectivityRun
 import PPV.Model.FixedNode
 import PPV.Model.GroupSum
+import PPV.Gen.FluidData
 
 open PPV
 
@@ -51,6 +52,25 @@ def handle (line : String) : String :=
     let b := sh (PPV.Model.GroupSum.groupBucket pairs)
     let c := sh (PPV.Model.GroupSum.groupNp pairs)
     if a == b && b == c then a else s!"MODEL-VARIANTS-DIFFER spec[{a}] bucket[{b}] np[{c}]"
+  | ["fluid", name, prop, x] =>
+    match PPV.Gen.FluidData.library.find? (fun f => f.name == name) with
+    | none => "unknown-fluid"
+    | some f =>
+      let q := PPV.Model.Newton.Run.parseRat x
+      let sh := PPV.Model.Newton.Run.showRat
+      match prop with
+      | "density" => sh (PPV.Model.Fluid.interp f.density q)
+      | "viscosity" => sh (PPV.Model.Fluid.interp f.viscosity q)
+      | "heat_capacity" => sh (PPV.Model.Fluid.interp f.heat_capacity q)
+      | "compressibility" => sh (PPV.Model.Fluid.linValue f.comprSlope f.comprOffset q)
+      | "der_compressibility" => sh f.derCompressibility
+      | "molar_mass" => sh f.molarMass
+      | _ => "unknown-prop"
+  | "pump" :: _ =>
+    let parts := line.trimAscii.toString.splitOn "::"
+    let reg := (PPV.Model.Newton.Run.toks (parts.getD 1 "")).map PPV.Model.Newton.Run.parseRat
+    let v := PPV.Model.Newton.Run.parseRat ((parts.getD 2 "").trimAscii.toString)
+    PPV.Model.Newton.Run.showRat (PPV.Model.Fluid.pumpPressure reg v)
   | _ => "bad-op"
 
 partial def loop (h : IO.FS.Stream) (out : IO.FS.Stream) : IO Unit := do
